@@ -1,0 +1,26 @@
+//go:build !verif
+
+package ants
+
+const (
+	VerifSiteSendLen = 1 + iota
+	VerifSiteSendEnqueue
+	VerifSiteDispatchRecv
+	VerifSiteInnerEnqueue
+	VerifSiteInnerRecv
+	VerifSiteCtxTest
+	VerifSiteAttemptSendDead
+	VerifSiteAttemptSendRes
+	VerifSiteDispatchSelect
+	VerifSiteStoreResult
+	VerifSiteStoreTimeout
+	VerifSiteCancel
+	VerifSiteReadErr
+	VerifSiteOnError
+	VerifSiteWgDone
+	VerifSiteGetWait
+)
+
+func verifYield(int) {}
+
+func verifYieldT(int, *taskCallback) {}
